@@ -300,7 +300,96 @@ def tool_output_regexes_anchored(ctx, rule):
         raise AnalysisError('external_diff_render: no regex post-processing of the tool output found')
 
 
+
+RAISING_ERROR_HANDLERS = ['strict', 'surrogateescape', 'surrogatepass']     # codecs documentation: these raise on unencodable characters
+ESCAPING_ERROR_HANDLERS = ['backslashreplace', 'replace', 'ignore', 'xmlcharrefreplace', 'namereplace']
+
+
+def lexer_name_is_a_string(ctx, rule):
+    """The language handed to pygments as lexer name comes from notebook metadata; it must be read from fields the notebook
+    schema types as *string*.  `language_info.codemirror_mode` is `string | object` by schema: the object form makes
+    pygments' lexer lookup raise AttributeError, which colorize_source does not catch."""
+    from ..schema import NbSchema
+    repo = ctx.repo
+    fn = repo.func(PP + ':pretty_print_notebook')
+    sch = NbSchema(5)
+    stores = [n for n in walk_no_nested(fn) if isinstance(n, ast.Assign) and any(isinstance(t, ast.Attribute) and t.attr == 'language' for t in n.targets)]
+    if not stores:
+        raise AnalysisError('pretty_print_notebook: config.language is no longer set from the notebook')
+    defs = local_defs(fn)
+    n = 0
+    for st in stores:
+        for c in ast.walk(st.value):
+            if isinstance(c, ast.Call) and isinstance(c.func, ast.Attribute) and c.func.attr == 'get' and c.args and isinstance(const_val(c.args[0]), str):
+                base = dotted(c.func.value)
+                src = None
+                if base in defs:
+                    for v, k, s2 in defs[base]:
+                        for g in ast.walk(v):
+                            if isinstance(g, ast.Call) and isinstance(g.func, ast.Attribute) and g.func.attr == 'get' and g.args and isinstance(const_val(g.args[0]), str):
+                                src = const_val(g.args[0])
+                if src is None:
+                    continue
+                field = const_val(c.args[0])
+                types = sch.types_at('/metadata/%s/%s' % (src, field))
+                n += 1
+                ok = bool(types) and types <= {'string', 'null'}
+                ctx.inst(rule, PP + ':pretty_print_notebook', 'language <- metadata.%s.%s (schema type %s)' % (src, field, sorted(types) or 'untyped'), ok,
+                         'a string by schema' if ok else
+                         'the schema allows %s here: a non-string reaches pygments as lexer name and rendering a valid notebook raises' % (sorted(types) or 'any value'), c)
+    if n == 0:
+        raise AnalysisError('pretty_print_notebook: no metadata field feeds config.language')
+
+
+def stream_error_handlers(ctx, rule):
+    """nbdiff/nbshow print notebook text to the terminal.  CPython opens stdout with `strict` in most set-ups and with
+    `surrogateescape` under the C/POSIX locale; both raise UnicodeEncodeError for text the locale codec cannot encode.
+    _setup_std_stream_encoding must therefore replace every raising handler (codecs docs: strict, surrogateescape,
+    surrogatepass) by an escaping one -- decided by evaluating its guard for each handler name."""
+    from ..consteval import Evaluator, UNKNOWN
+    repo = ctx.repo
+    fn = repo.func('nbdime.utils:_setup_std_stream_encoding')
+    g = CFG(fn)
+    fix = None
+    for n in walk_no_nested(fn):
+        if isinstance(n, ast.Call) and any(k.arg == 'errors' and isinstance(const_val(k.value), str) and const_val(k.value) in ESCAPING_ERROR_HANDLERS for k in n.keywords):
+            fix = n
+    if fix is None:
+        raise AnalysisError('_setup_std_stream_encoding: no call installing an escaping error handler found')
+    guards = [(t, pol) for t, pol in cond_guards(g, repo.stmt_of(fix)) if 'errors' in {x.id for x in ast.walk(t) if isinstance(x, ast.Name)}]
+    if not guards:
+        ctx.inst(rule, 'nbdime.utils:_setup_std_stream_encoding', repo.norm(fix)[:80], True, 'the escaping handler is installed whatever the current handler is', fix)
+        return
+
+    def holds(t, value):
+        # tiny evaluator for: errors == 'x', errors.startswith('x'), errors in (...), or/and/not
+        if isinstance(t, ast.BoolOp):
+            vals = [holds(v, value) for v in t.values]
+            return all(vals) if isinstance(t.op, ast.And) else any(vals)
+        if isinstance(t, ast.UnaryOp) and isinstance(t.op, ast.Not):
+            return not holds(t.operand, value)
+        if isinstance(t, ast.Compare) and len(t.ops) == 1 and dotted(t.left) == 'errors':
+            r = t.comparators[0]
+            vals = [const_val(e) for e in r.elts] if isinstance(r, (ast.Tuple, ast.List, ast.Set)) else [const_val(r)]
+            if isinstance(t.ops[0], (ast.Eq, ast.In)):
+                return value in vals
+            if isinstance(t.ops[0], (ast.NotEq, ast.NotIn)):
+                return value not in vals
+        if isinstance(t, ast.Call) and isinstance(t.func, ast.Attribute) and dotted(t.func.value) == 'errors' and t.args and isinstance(const_val(t.args[0]), str):
+            if t.func.attr == 'startswith':
+                return value.startswith(const_val(t.args[0]))
+            if t.func.attr == 'endswith':
+                return value.endswith(const_val(t.args[0]))
+        raise AnalysisError('_setup_std_stream_encoding: guard `%s` not modelled' % ast.unparse(t))
+    for h in RAISING_ERROR_HANDLERS:
+        ok = all(holds(t, h) == pol for t, pol in guards)
+        ctx.inst(rule, 'nbdime.utils:_setup_std_stream_encoding', 'current handler %r -> %s' % (h, 'replaced' if ok else 'kept'), ok,
+                 'a handler that raises on unencodable text is replaced by an escaping one' if ok else
+                 'a stream opened with errors=%r (CPython under the C/POSIX locale) keeps that handler: printing non-ASCII notebook text raises UnicodeEncodeError' % h, fix)
+
 def run(ctx):
+    ctx.rule('R16.11', 'the lexer name is read only from notebook metadata fields the schema types as string', floor=2)
+    ctx.rule('R16.12', 'every stdout/stderr error handler that raises on unencodable text (strict, surrogateescape, surrogatepass) is replaced by an escaping one', floor=3)
     ctx.rule('R16.10', 'fields read from a diff entry exist for every op that the surrounding op tests still allow (field table from the op_* constructors)', floor=6)
     ctx.rule('R16.9', 'name binding: every global name a function refers to is bound at module level or builtin, and every local is assigned on every path before it is read', floor=4)
     ctx.rule('R16.8', 'every exactly resolved call binds against its callee\'s signature (no missing/unknown/surplus argument on any arm)', floor=2)
@@ -318,3 +407,5 @@ def run(ctx):
     name_binding(ctx, 'R16.9', ['nbdime.prettyprint', 'nbdime.nbshowapp', 'nbdime.nbdiffapp', 'nbdime.vcs.git.diffdriver'])
     from ..opfields import check_op_fields
     check_op_fields(ctx, 'R16.10', ['nbdime.prettyprint'])
+    lexer_name_is_a_string(ctx, 'R16.11')
+    stream_error_handlers(ctx, 'R16.12')
